@@ -278,6 +278,18 @@ def sampling_funcs(nd, cplx):
         yield 'odl.vectorize', odl.util.vectorize(lambda x: float(np.sin(x[0]) + x[nd - 1])), (lambda p: np.sin(p[0]) + p[nd - 1])
     yield 'odl.vectorize-branchy', odl.util.vectorize(lambda x: (1.5 if x[0] > 0.3 else -0.25) * (1 if not cplx else 1j)), \
         (lambda p: (1.5 if p[0] > 0.3 else -0.25) * (1 if not cplx else 1j))
+    # the decorator's other documented spellings: numpy.vectorize options given positionally / by keyword / empty call.
+    # The functions return a "smaller" type at the first grid points (int 0, a real number), so the declared output type
+    # is what makes the sampled values right.
+    if cplx:
+        yield 'odl.vectorize(positional-otypes)', odl.util.vectorize(['complex128'])(lambda x: 2 if x[0] < 0.3 else 1j * float(x[0]) + 0.25), \
+            (lambda p: 2 if p[0] < 0.3 else 1j * p[0] + 0.25)
+    else:
+        yield 'odl.vectorize(positional-otypes)', odl.util.vectorize(['float64'])(lambda x: 0 if x[0] < 0.3 else float(x[0]) + 0.25), \
+            (lambda p: 0 if p[0] < 0.3 else p[0] + 0.25)
+        yield 'odl.vectorize(keyword-otypes)', odl.util.vectorize(otypes=['float64'])(lambda x: 0 if x[0] < 0.3 else float(x[0]) + 0.25), \
+            (lambda p: 0 if p[0] < 0.3 else p[0] + 0.25)
+    yield 'odl.vectorize()', odl.util.vectorize()(lambda x: c * float(x[0] - x[nd - 1] ** 2)), (lambda p: c * (p[0] - p[nd - 1] ** 2))
     if nd == 1:
         yield 'numpy-ufunc', np.exp, (lambda p: np.exp(p[0]))
     yield 'default-kwarg', (lambda x, k=2.0: c * k * x[0]), (lambda p: c * 2.0 * p[0])
@@ -497,6 +509,55 @@ def run_lindeform_ops(ctx):
                 ctx.violation('LinDeformFixedDisp', cfg, 'raises:' + type(e).__name__, message=str(e)[:200])
 
 
+def run_lindeform_templ(ctx):
+    """LinDeformFixedTempl(template, interp=...): op(v) is the template interpolated with the given per-axis schemes at
+    x + v(x); op.derivative(v)(u) = sum_a [grad_a template](x + v(x)) u_a(x) with the template gradient (central differences,
+    symmetric padding, as documented in the code) sampled with the *same* schemes."""
+    from odl.deform import LinDeformFixedTempl
+    rng = ctx.rng('lindeform-templ')
+    idx = 40000
+    for nd in (1, 2):
+        for schemes in [s_ for s_ in itertools.product(['nearest', 'linear'], repeat=nd)]:
+            idx += 1
+            if not ctx.mine(idx):
+                continue
+            sp = odl.uniform_discr([0.0] * nd, [1.0, 2.0][:nd], (6, 5)[:nd])
+            interp = schemes[0] if len(set(schemes)) == 1 else list(schemes)
+            cfg = '%dd;%s' % (nd, 'mixed' if len(set(schemes)) > 1 else schemes[0])
+            ctx.case('LinDeformFixedTempl;' + cfg, 0)
+            try:
+                h = sp.cell_sides
+                templ = util.rand_element(sp, rng)
+                op = LinDeformFixedTempl(templ, interp=interp)
+                disp = op.domain.element([sp.element(rng.uniform(0.2, 0.4, size=sp.shape) * rng.choice([-1, 1], size=sp.shape) * h[a]) for a in range(nd)])
+                u = util.rand_element(op.domain, rng)
+                cvs = [np.asarray(cv) for cv in sp.grid.coord_vectors]
+                gt = odl.Gradient(domain=sp, method='central', pad_mode='symmetric')(templ)
+                got_val = np.asarray(op(disp))
+                got_der = np.asarray(op.derivative(disp)(u))
+                ctx.ev('resampling', 2)
+                bad_v = bad_d = None
+                for ix in np.ndindex(*sp.shape):
+                    pnt = [cvs[a][ix[a]] + np.asarray(disp[a])[ix] for a in range(nd)]
+                    if any(x < cv[0] or x > cv[-1] for x, cv in zip(pnt, cvs)) and 'nearest' in schemes:
+                        continue
+                    acc = ref_vals(np.asarray(templ), cvs, pnt, schemes)
+                    if bad_v is None and not any(abs(got_val[ix] - a) <= 1e-12 * max(1.0, np.abs(np.asarray(templ)).max()) for a in acc):
+                        bad_v = (pnt, got_val[ix], acc[0])
+                    # at exact ties of the nearest rule either neighbour is accepted, per gradient component
+                    accs = [ref_vals(np.asarray(gt[a]), cvs, pnt, schemes) for a in range(nd)]
+                    cands = [sum(c[a] * np.asarray(u[a])[ix] for a in range(nd)) for c in itertools.product(*accs)]
+                    scale = max(1.0, max(np.abs(np.asarray(g)).max() for g in gt))
+                    if bad_d is None and not any(abs(got_der[ix] - c) <= 1e-11 * scale for c in cands):
+                        bad_d = (pnt, got_der[ix], cands[0])
+                if bad_v:
+                    ctx.violation('LinDeformFixedTempl', cfg, 'value!=multilinear-model', point=bad_v[0], got=bad_v[1], ref=bad_v[2])
+                if bad_d:
+                    ctx.violation('LinDeformFixedTempl.derivative', cfg, 'value!=interpolated-template-gradient', point=bad_d[0], got=bad_d[1], ref=bad_d[2])
+            except Exception as e:
+                ctx.violation('LinDeformFixedTempl', cfg, 'raises:' + type(e).__name__, message=str(e)[:200])
+
+
 def run(ctx):
     ctx.note('rule', 'interpolation: one case = (interpolator kind, per-axis scheme tuple, dimension, uniform/non-uniform, '
                      'value dtype, repetition) evaluated at 7 point kinds and through 3 calling conventions; sampling: one '
@@ -515,6 +576,7 @@ def run(ctx):
     run_sampling(ctx)
     run_resampling(ctx)
     run_lindeform_ops(ctx)
+    run_lindeform_templ(ctx)
     if ctx.shard == 0:
         run_nonnumeric(ctx)
     cov.disarm()
